@@ -30,7 +30,7 @@ func (p *Parser) parseExpression() (ast.Expression, error) {
 		return nil, goerrors.RecursionDepthLimitError(
 			p.depth,
 			MaxRecursionDepth,
-			models.Location{Line: 0, Column: 0},
+			p.currentLocation(),
 			"",
 		)
 	}
@@ -72,7 +72,7 @@ func (p *Parser) parseNotOperand() (ast.Expression, error) {
 		return nil, goerrors.RecursionDepthLimitError(
 			p.depth,
 			MaxRecursionDepth,
-			models.Location{Line: 0, Column: 0},
+			p.currentLocation(),
 			"",
 		)
 	}
@@ -253,7 +253,7 @@ func (p *Parser) parseComparisonExpression() (ast.Expression, error) {
 			if err != nil {
 				return nil, goerrors.InvalidSyntaxError(
 					fmt.Sprintf("failed to parse IN value: %v", err),
-					models.Location{Line: 0, Column: 0},
+					p.currentLocation(),
 					"",
 				).WithCause(err)
 			}
@@ -282,7 +282,7 @@ func (p *Parser) parseComparisonExpression() (ast.Expression, error) {
 		return nil, goerrors.ExpectedTokenError(
 			"BETWEEN, LIKE, or IN",
 			"NOT",
-			models.Location{Line: 0, Column: 0},
+			p.currentLocation(),
 			"",
 		)
 	}
@@ -332,7 +332,7 @@ func (p *Parser) parseComparisonExpression() (ast.Expression, error) {
 			if err != nil {
 				return nil, goerrors.InvalidSyntaxError(
 					fmt.Sprintf("failed to parse %s subquery: %v", quantifier, err),
-					models.Location{Line: 0, Column: 0},
+					p.currentLocation(),
 					"",
 				).WithCause(err)
 			}
@@ -785,7 +785,7 @@ func (p *Parser) parsePrimaryExpression() (ast.Expression, error) {
 			if err != nil {
 				return nil, goerrors.InvalidSyntaxError(
 					fmt.Sprintf("failed to parse subquery: %v", err),
-					models.Location{Line: 0, Column: 0},
+					p.currentLocation(),
 					"",
 				).WithCause(err)
 			}
@@ -855,7 +855,7 @@ func (p *Parser) parsePrimaryExpression() (ast.Expression, error) {
 		if err != nil {
 			return nil, goerrors.InvalidSyntaxError(
 				fmt.Sprintf("failed to parse EXISTS subquery: %v", err),
-				models.Location{Line: 0, Column: 0},
+				p.currentLocation(),
 				"",
 			).WithCause(err)
 		}
@@ -886,7 +886,7 @@ func (p *Parser) parsePrimaryExpression() (ast.Expression, error) {
 			if err != nil {
 				return nil, goerrors.InvalidSyntaxError(
 					fmt.Sprintf("failed to parse NOT EXISTS subquery: %v", err),
-					models.Location{Line: 0, Column: 0},
+					p.currentLocation(),
 					"",
 				).WithCause(err)
 			}
@@ -920,7 +920,7 @@ func (p *Parser) parsePrimaryExpression() (ast.Expression, error) {
 	return nil, goerrors.UnexpectedTokenError(
 		p.currentToken.Type.String(),
 		p.currentToken.Literal,
-		models.Location{Line: 0, Column: 0},
+		p.currentLocation(),
 		"",
 	)
 }
@@ -945,7 +945,7 @@ func (p *Parser) parseCaseExpression() (*ast.CaseExpression, error) {
 		if err != nil {
 			return nil, goerrors.InvalidSyntaxError(
 				fmt.Sprintf("failed to parse CASE value: %v", err),
-				models.Location{Line: 0, Column: 0},
+				p.currentLocation(),
 				"",
 			).WithCause(err)
 		}
@@ -961,7 +961,7 @@ func (p *Parser) parseCaseExpression() (*ast.CaseExpression, error) {
 		if err != nil {
 			return nil, goerrors.InvalidSyntaxError(
 				fmt.Sprintf("failed to parse WHEN condition: %v", err),
-				models.Location{Line: 0, Column: 0},
+				p.currentLocation(),
 				"",
 			).WithCause(err)
 		}
@@ -977,7 +977,7 @@ func (p *Parser) parseCaseExpression() (*ast.CaseExpression, error) {
 		if err != nil {
 			return nil, goerrors.InvalidSyntaxError(
 				fmt.Sprintf("failed to parse THEN result: %v", err),
-				models.Location{Line: 0, Column: 0},
+				p.currentLocation(),
 				"",
 			).WithCause(err)
 		}
@@ -992,7 +992,7 @@ func (p *Parser) parseCaseExpression() (*ast.CaseExpression, error) {
 	if len(caseExpr.WhenClauses) == 0 {
 		return nil, goerrors.InvalidSyntaxError(
 			"CASE expression requires at least one WHEN clause",
-			models.Location{Line: 0, Column: 0},
+			p.currentLocation(),
 			"",
 		)
 	}
@@ -1005,7 +1005,7 @@ func (p *Parser) parseCaseExpression() (*ast.CaseExpression, error) {
 		if err != nil {
 			return nil, goerrors.InvalidSyntaxError(
 				fmt.Sprintf("failed to parse ELSE result: %v", err),
-				models.Location{Line: 0, Column: 0},
+				p.currentLocation(),
 				"",
 			).WithCause(err)
 		}
@@ -1244,7 +1244,7 @@ func (p *Parser) parseSubquery() (ast.Statement, error) {
 	return nil, goerrors.ExpectedTokenError(
 		"SELECT or WITH",
 		p.currentToken.Type.String(),
-		models.Location{Line: 0, Column: 0},
+		p.currentLocation(),
 		"",
 	)
 }
